@@ -139,6 +139,8 @@ pub struct Obs {
   /// per subscription: (notification, time relative to its own start)
   pub traces: Vec<Vec<(u64, N)>>,
   pub calls: usize,
+  /// polls of the scripted future that is the pipeline's own source (None: another source)
+  pub future_polls: Option<usize>,
   pub closures_per_subscription: usize,
   pub finalize_marks: usize,
   /// successive subscriptions only: the number its stateful combine_latest combinator gave to its
@@ -261,6 +263,11 @@ pub fn observe(c: &Case) -> Result<Obs, String> {
       );
     }
     let calls = evs.iter().filter(|e| e.id == SRC_CALL_ID).count();
+    // a future that is the pipeline's own source is polled at least once by every subscription
+    let future_polls = match &c.chain.src {
+      Src::Future(id, _) | Src::FutureRes(id, _) => Some(evs.iter().filter(|e| e.id == *id && matches!(e.k, K::Mark("poll", _))).count()),
+      _ => None,
+    };
     let finalize_marks = evs.iter().filter(|e| e.id == FIN).count();
     let mut first_combine_call = vec![];
     if matches!(c.how, How::Successive | How::SuccessiveUnsub) {
@@ -285,6 +292,7 @@ pub fn observe(c: &Case) -> Result<Obs, String> {
       traces,
       calls,
       closures_per_subscription: count_closures(&c.chain),
+      future_polls,
       finalize_marks,
       first_combine_call,
       ended_subscriptions: ended,
@@ -307,6 +315,14 @@ pub fn judge(c: &Case, o: &Result<Obs, String>) -> Option<(String, serde_json::V
   let started = o.traces.len();
   // every started subscription runs each source closure exactly once (a
   // closure that a chain never reaches, e.g. behind take_until's dead input, is not generated)
+  if let Some(p) = o.future_polls {
+    if c.how != How::Nested && p < started {
+      return Some((
+        "future_not_polled".into(),
+        json!({"why": format!("{} subscriptions were started but the source future was polled only {} times in all (every subscription polls its future at least once)", started, p)}),
+      ));
+    }
+  }
   if c.how != How::Nested && o.calls != o.closures_per_subscription * started {
     return Some((
       "closure_call_count".into(),
